@@ -43,6 +43,12 @@ FIXED = [
     ("latch", 0, "get.of.rd_wfz.th"),                 # ready from the constructor
     ("latch", 1, "cd1_of_get"),
     ("latch", 2, "cd2_rd.get_of.wf10"),
+    # regression for findings/C08_waiter_counter_overflow.md (fixed by c8a8a14): (mode, count, prog, wbase) - the futex word
+    # starts wbase below READY_MASK (what 2^31 - wbase slow-path waits left behind when waiters were COUNTED in that word);
+    # with a counter the next waits carry into the READY bit (wait_for true / get() returns without set_value)
+    ("fut", 0, "wfz.wfz.wf10.rd", 2),
+    ("fut", 0, "wfz.rd_wf10.of", 2),
+    ("fut", 0, "sl100.sv7_wfz.wf20.get_wfz.of", 3),
 ]
 # preemption-bounded systematic exploration: (mode, count, prog, bound, max executions) per tier
 PB = {
@@ -53,10 +59,6 @@ PB = {
                  ("latch", 1, "cd1_of", 2, 600), ("latch", 1, "cd1_get", 2, 600), ("fut", 0, "sv7_of_get", 2, 1200), ("fut", 0, "sv7_of_of", 2, 1200),
                  ("fut", 0, "sv7_get_wf30", 2, 1200), ("latch", 2, "cd1_cd1_of", 2, 1200), ("latch", 2, "cd1_cd1_rd", 1, 600), ("fut", 0, "of.sv7_get", 2, 800)],
 }
-
-# KNOWN FINDING findings/C08_waiter_counter_overflow.md: (mode, count, prog, wbase) - the waiter counter starts wbase
-# registrations before its carry into READY_MASK (what 2^31 - wbase timed-out polls leave behind)
-KNOWN = [("fut", 0, "wfz.wfz.get", 2), ("fut", 0, "wfz.rd_wf10.of", 2)]
 
 CLAUSES = {"CallbackExactlyOnce", "CallbackAfterValue", "NoDataRace", "GetReturnsValue", "WaitForTrue", "WaitForFalse", "AfterSet",
            "ReadyOnlyIfSet", "SetOnce", "NoLostWakeup", "LatchReadyIffZero", "ThenResult", "PublishedConsistent", "NoLivelock", "NoCrash",
@@ -194,7 +196,7 @@ def rerun(key):
 
 
 def mc_list(tier):
-    mcs = [("sc", "Fut_sc.cfg"), ("wm", "Fut_wm.cfg")]
+    mcs = [("sc", "Fut_sc.cfg"), ("wm", "Fut_wm.cfg"), ("overflow", "Fut_overflow.cfg")]
     if tier == "thorough":
         mcs += [("sc_full", "Fut_sc_full.cfg"), ("sc_4", "Fut_sc_4.cfg"), ("wm3", "Fut_wm3.cfg"), ("live", "Fut_live.cfg")]
     return mcs
@@ -232,7 +234,6 @@ def run(pid, tier, seed, replay=None):
     if not replay:
         nw = max(2, vlib.NCPU // 4)
         pending = submit_all(pool, [(run_mc, (name, cfg, tag0, [], nw)) for name, cfg in mc_list(tier)])
-        overflow = pool.submit(run_mc, "overflow", "Fut_overflow.cfg", tag0, [], 2)
 
     if replay:
         key = json.load(open(replay))
@@ -268,7 +269,7 @@ def run(pid, tier, seed, replay=None):
         ("L2C", os.path.join(SPEC, "Fut_Trace.tla"), os.path.join(SPEC, "mc", "Fut_TraceConf.cfg"), fc.normalise),
     )
     futs = dict(zip([x[0] for x in layers], submit_all(pool, [(vlib.check_traces, (tla, cfg, [conv(ex) for ex in execs], pid + "_" + name, 4)) for name, tla, cfg, conv in layers])))
-    def judge(name, tla, cfg, conv, exs, issues, reproduce=True):
+    def judge(name, tla, cfg, conv, exs, issues):
         for iss in issues:
             ex = exs[iss.exec_index]
             key = exec_key(ex)
@@ -292,7 +293,7 @@ def run(pid, tier, seed, replay=None):
                 V.extra.setdefault("other_property_clauses_seen", []).append(what)
                 continue
             # reproducibility: the same schedule must fail again
-            if reproduce and not replay:
+            if not replay:
                 ex2 = rerun(key)
                 lines2 = [conv(ex2)] if ex2 else []
                 _, iss2, _ = vlib.check_traces(tla, cfg, lines2, pid + "_re") if lines2 else (0, [], {})
@@ -308,12 +309,6 @@ def run(pid, tier, seed, replay=None):
             rp = vlib.save_replay(pid, "%s_%s_%s_%d.json" % (name, what, "w%s" % pr.get("wbase", 0), iss.exec_index), {"exec": key, "clause": what, "layer": name, "line": iss.line, "trace": ex[:400]})
             V.violation("%s violated on an execution of the real code (%s layer) mode=%s wbase=%s prog=%s seed=%s" % (what, name, pr.get("mode"), pr.get("wbase", 0), pr.get("prog"), key["seed"]), rp)
 
-    kexecs, kfuts = [], {}
-    if not replay:
-        # known finding: the L1 monitor gives the verdict, the L2 trace spec (conformance only) shows the code does what Fut.tla says
-        kexecs, _ = record(KNOWN, (seed * 1000 + 1, seed * 1000 + 2), "mix", os.path.join(vlib.BUILD, "traces", pid + "_known"), jobs=1)
-        conf = os.path.join(SPEC, "mc", "Fut_TraceConf.cfg")
-        kfuts = dict(zip(["L1", "L2"], submit_all(pool, [(vlib.check_traces, (tla, conf if name == "L2" else cfg, [conv(ex) for ex in kexecs], pid + "_K" + name, 4)) for name, tla, cfg, conv in layers if name in ("L1", "L2")])))
     results = {}
     for name, tla, cfg, conv in layers:
         acc, issues, st = futs[name].result()
@@ -321,14 +316,6 @@ def run(pid, tier, seed, replay=None):
         V.cov["transitions"] += st["states"]
         V.extra["trace_" + name] = {"accepted": acc, "issues": len(issues), "tlc_states": st["states"], "wall_s": round(st["wall"], 1), "unchecked": st["unchecked"]}
         judge(name, tla, cfg, conv, execs, issues)
-    if kfuts:
-        kn = {}
-        for name, tla, cfg, conv in layers:
-            if name in kfuts:
-                acc, issues, st = kfuts[name].result()
-                kn[name] = {"accepted": acc, "issues": len(issues)}
-                judge(name, tla, cfg, conv, kexecs, issues, reproduce=False)
-        V.extra["known_finding_executions"] = dict(kn, executions=len(kexecs))
     timing["validated_s"] = round(time.time() - V.t0, 1)
     V.cov["traces_validated_against_impl"] = results["L1"][0] + results["L2C"][0] + results["HB"][0]
     for ex in execs[:2]:
@@ -364,19 +351,12 @@ def run(pid, tier, seed, replay=None):
                 rp = vlib.save_replay(pid, "tlc_%s_%s.txt" % (name, clause), "order table (from the running code): %s\nchanged vs committed: %s\n\n%s" % (json.dumps(table), json.dumps(changed), r.error_trace))
                 V.violation("%s violated in the L2 model %s with the memory orders the code executes (changed: %s)" % (clause, cfg, json.dumps(changed)), rp)
         V.cov["exhaustive"] = True
-        # model-level witness of the known finding (waiter counter carried into READY_MASK)
-        _, _, r = overflow.result()
-        V.extra.setdefault("tlc_runs", {})["overflow_witness"] = {"distinct": r.distinct, "ok": r.ok, "violation": r.violation, "cached": r.cached, "wall_s": round(r.wall, 1)}
-        if r.violation in ("tlc_error", "timeout"):
-            raise vlib.Broken("TLC failed on Fut_overflow.cfg: %s" % r.error_trace[:2000])
-        if not r.ok and r.violation in CLAUSES:
-            rp = vlib.save_replay(pid, "tlc_overflow_%s.txt" % r.violation, r.error_trace)
-            V.violation("%s violated in the L2 model Fut_overflow.cfg (futex word starts at READY - 2: the waiter counter carries into READY_MASK)" % r.violation, rp)
     pool.shutdown(wait=False)
     timing["mc_done_s"] = round(time.time() - V.t0, 1)
     V.extra["timing"] = timing
     log("C08 %s: %d executions, phases %s" % (tier, len(execs), json.dumps(timing)))
-    V.extra["constants"] = {"sc": "1 setter + unordered pairs over {get, wait_for(1), on_finish, ready}, then, wait_for(-1 | 0 | huge), 2-operation threads, setter registering itself, sleep + timeouts, spurious weak-CAS failure, latch count 0..3",
+    V.extra["constants"] = {"overflow": "futex word preset to READY - 2 (regression: waiters must not count into the READY bit)",
+                            "sc": "1 setter + unordered pairs over {get, wait_for(1), on_finish, ready}, then, wait_for(-1 | 0 | huge), 2-operation threads, setter registering itself, sleep + timeouts, spurious weak-CAS failure, latch count 0..3",
                             "wm": "Stale=TRUE: 1 setter + unordered pairs over {get, on_finish, ready}, wait_for(1) vs on_finish, 2-operation threads, latch(2)",
                             "thorough": "all ordered pairs over 8 operations, 4 threads (multisets with on_finish), 3 registrations with spurious CAS failures, Stale=TRUE with 4 threads, liveness under weak fairness"}
     V.assumptions += [
